@@ -196,6 +196,36 @@ impl Prop for C17 {
                 }
             }
         }
+        // one job set in six is a small "project": documents that define names and documents that use them
+        // (aliases of the calls typstyle lays out specially, templates, rules) -- what one document defines
+        // must not change how another one, or the same one on its next call, is laid out (seeded change
+        // C17-8: a process-wide registry of `table.with(..)` aliases)
+        if t.chance(43) {
+            const DEFS: &[&str] = &[
+                "#let cards = grid.with(columns: 3, gutter: 4pt)\n#let wide = table.with(columns: (1fr, 2fr))\n",
+                "#let cards = grid.with(columns: 2)\n",
+                "#let tbl = table\n#let cards = table.with(columns: 4)\n#let f(..a) = grid(columns: 2, ..a)\n",
+                "#import \"template.typ\": cards, wide\n#show: doc => cards(doc)\n",
+                "#set table(columns: 3)\n#show table: set text(8pt)\n#let cards(..a) = table(columns: 2, ..a)\n",
+            ];
+            const USES: &[&str] = &[
+                "#cards([a], [b], [c], [d], [e], [f])\n",
+                "#cards(columns: 2, [a], [bb], [ccc], [d])\n#wide([x], [y], [z], [w])\n",
+                "#cards(\n  [a], [b],\n  [c], [d], [e], [f],\n)\n#tbl(columns: 2, [1], [2], [3], [4])\n",
+                "= Gallery\n#cards([one], [two], [three])\nText #wide([p], [q]) more.\n",
+            ];
+            let d = t.pick(DEFS).to_string();
+            let u = t.pick(USES).to_string();
+            match t.below(3) {
+                // use above its definition in one document, definition alone, use alone
+                0 => texts.push(format!("{u}{d}")),
+                1 => texts.push(format!("{d}{u}")),
+                _ => {}
+            }
+            texts.insert(t.below(texts.len() + 1), d);
+            texts.insert(t.below(texts.len() + 1), u);
+            st.label("project:definitions-and-uses-in-separate-documents");
+        }
         let mut jobs = vec![];
         for s in &texts {
             let k = 1 + t.weighted(&[4, 3, 1]);
